@@ -454,7 +454,7 @@ pub fn write_config(spec: &AppSpec, dir: &Path) -> std::io::Result<(PathBuf, Str
     // cost
     t.push_str("\n[cost]\n");
     t.push_str(&format!("cost_aggregation = \"{}\"\n", match w.cost.agg { CostAggregation::Sum => "sum", CostAggregation::Mul => "mul" }));
-    t.push_str(&format!("weights = {{ {} }}\n", w.cost.weights.iter().map(|(k, v)| format!("{} = {:?}", k, v)).collect::<Vec<_>>().join(", ")));
+    t.push_str(&format!("weights = {{ {} }}\n", w.weights_as_configured().iter().map(|(k, v)| format!("{} = {:?}", k, v)).collect::<Vec<_>>().join(", ")));
     t.push_str(&format!("vehicle_rates = {{ {} }}\n", w.cost.vehicle_rates.iter().map(|(k, v)| format!("{} = {}", k, rate_toml(v))).collect::<Vec<_>>().join(", ")));
     t.push_str("network_rates = {}\n");
     // termination
